@@ -57,6 +57,30 @@ def _create_problematic_where_sequence(
     return data_input * where_output
 
 
+def _jax_promote_avals(x: Any, y: Any) -> np.dtype[Any]:
+    """JAX (not NumPy) type promotion of the two value operands.
+
+    Weakly typed operands (Python scalars) do not widen an array operand:
+    ``where(c, int32_array, 1)`` stays int32 under x64 and
+    ``where(c, int32_array, 0.5)`` is float32, not float64.
+    """
+
+    def _arg(aval: Any) -> Any:
+        dtype = np.dtype(getattr(aval, "dtype", np.float32))
+        if getattr(aval, "weak_type", False):
+            if np.issubdtype(dtype, np.bool_):
+                return bool
+            if np.issubdtype(dtype, np.integer):
+                return int
+            if np.issubdtype(dtype, np.floating):
+                return float
+            if np.issubdtype(dtype, np.complexfloating):
+                return complex
+        return dtype
+
+    return np.dtype(jax.dtypes.result_type(_arg(x), _arg(y)))
+
+
 @register_primitive(
     jaxpr_primitive=_WHERE_PRIM.name,
     jax_doc="https://jax.readthedocs.io/en/latest/_autosummary/jax.numpy.where.html",
@@ -287,7 +311,7 @@ class JnpWherePlugin(PrimitiveLeafPlugin):
             raise TypeError("jnp.where expects ShapedArray inputs")
         if not isinstance(y, ShapedArray):
             raise TypeError("jnp.where expects ShapedArray inputs")
-        promoted = np.promote_types(x.dtype, y.dtype)
+        promoted = _jax_promote_avals(x, y)
         out_shape = jnp.broadcast_shapes(cond.shape, x.shape, y.shape)
         return ShapedArray(out_shape, promoted)
 
@@ -316,10 +340,7 @@ class JnpWherePlugin(PrimitiveLeafPlugin):
             _stamp_type_and_shape(cond_val, tuple(getattr(cond_var.aval, "shape", ())))
             _ensure_value_metadata(ctx, cond_val)
 
-        target_dtype = np.promote_types(
-            np.dtype(getattr(x_var.aval, "dtype", np.float32)),
-            np.dtype(getattr(y_var.aval, "dtype", np.float32)),
-        )
+        target_dtype = _jax_promote_avals(x_var.aval, y_var.aval)
         if (
             not ctx.builder.enable_double_precision
             and np.issubdtype(target_dtype, np.floating)
